@@ -7,7 +7,7 @@ from . import common
 
 ID = "C05"
 LEVEL = "exploration"
-BUDGET = {"quick": 30000, "thorough": 600000}
+BUDGET = {"quick": 20000, "thorough": 400000}
 WALL_CAP = {"quick": 600, "thorough": 5400}
 RULE = ("case = generated 2D/3D plotfile x ordered variable selection (known names in any order, optionally "
         "unknown names, or 'all') x level limit x {API, CLI} x {relative, absolute} paths, strained under a drawn "
@@ -50,7 +50,7 @@ def run_colander(ctx, m, path, req, limit, out_arg, cwd, cli, in_arg):
 def run_case(ctx):
     src = ctx.src
     common.draw_env(ctx)
-    m = world.gen_world(src)
+    m = world.gen_world(src, scale=("hugebox", "manyboxes", "farcorner", "manyfields"))
     path, _ = common.materialise(ctx, m)
     req, names = draw_selection(src, m)
     limit = None
